@@ -222,6 +222,8 @@ func buildProv(prop string) *scen {
 		{name: "stake(p0,A,101)", kind: kStake, who: "vault0", prov: 0, chainID: specA, amt: 101},
 		{name: "stake(p0,A,350)", kind: kStake, who: "vault0", prov: 0, chainID: specA, amt: 350},
 		{name: "stake(p1,A,250)", kind: kStake, who: "vault1", prov: 1, chainID: specA, amt: 250},
+		// the provider address itself (not its vault) sends the stake tx for a chain
+		{name: "stake(by prov0 itself,B,250)", kind: kStake, who: "prov0", prov: 0, chainID: specB, amt: 250},
 		{name: "move(vault0,A->B,100)", kind: kMove, who: "vault0", chainID: specA, chainID2: specB, amt: 100},
 		{name: "move(prov0,B->A,101)", kind: kMove, who: "prov0", chainID: specB, chainID2: specA, amt: 101},
 		{name: "unstake(vault0,A)", kind: kUnstake, who: "vault0", chainID: specA},
@@ -733,7 +735,7 @@ func RunCheck(run *ev.Run, prop string) {
 	run.Set("exhaustive", exh)
 	run.Set("bound", "all histories over two alphabets on 2 validators, 2 providers (vault != provider address), 2 chains (spec min stake 200, MinSelfDelegation 100), 2 delegators, amounts {1,100,101,250,350,all}: "+
 		"'deleg' = 16 ops (staking Delegate/Undelegate partial+all/BeginRedelegate with the ante redelegation flag/CancelUnbondingDelegation, slash 1/2 of v0 or v1 for an old infraction followed by a block, dualstaking Delegate/Redelegate provider->provider and empty->provider/Unbond/ClaimRewards, +block); "+
-		"'prov' = 19 ops (stake new/modify up/down on 2 chains, second provider, move-stake by vault and by provider, unstake by vault and by provider on both chains, delegator delegate/redelegate/unbond, vault self-delegation through dualstaking txs, vault staking-module undelegate, slash+block, +block); "+strings.Join(bounds, "; "))
+		"'prov' = 20 ops (stake new/modify up/down on 2 chains, a stake tx sent by the provider address itself, second provider, move-stake by vault and by provider, unstake by vault and by provider on both chains, delegator delegate/redelegate/unbond, vault self-delegation through dualstaking txs, vault staking-module undelegate, slash+block, +block); "+strings.Join(bounds, "; "))
 	run.Assume("mock bank/account keeper of testutil/keeper; transactions atomic as in baseapp; the dualstaking ante decorator is applied before every tx and its write persists when the message fails")
 	run.Assume("a validator slash is modelled as SlashingKeeper.Slash(1/2, power 1, infraction height = start of the history) immediately followed by the next block (dualstaking BeginBlock); every validator is slashed at most once per history")
 	run.Assume("share rounding tolerance (C06): exact equality while the delegator only ever used validators with exchange rate 1; otherwise the floor/ceil band of the share conversion widened by one unit per slashed validator the delegator has held a delegation at")
